@@ -83,8 +83,24 @@ def outcome_class(s):
 
 
 # ----------------------------------------------------------------------------
+class Phases:
+    """wall time per phase of the check, written into the evidence (coverage.phase_s)"""
+
+    def __init__(self, ck):
+        import time
+
+        self.ck, self.t, self.cur, self.d, self.time = ck, time.time(), "tlc+replay", {}, time
+
+    def mark(self, name):
+        now = self.time.time()
+        self.d[self.cur] = round(self.d.get(self.cur, 0) + now - self.t, 1)
+        self.t, self.cur = now, name
+        self.ck.note("phase_s", dict(self.d))
+
+
 def main():
     ck = Check("C16")
+    ph = Phases(ck)
     tier = ck.tier
     rnd = random.Random(ck.seed)
     ck.rule = (
@@ -123,6 +139,7 @@ def main():
     wdir = os.path.join(ck.wd, "tmp")
     os.makedirs(wdir, exist_ok=True)
 
+    ph.mark("parse")
     # ---- 1. operator / value spellings through parse_allele_filter ----------
     strings, want = [], []
     for op in ("=", "==", ">", ">=", "<", "<=", "!="):
@@ -147,6 +164,7 @@ def main():
                          key={"site": "parse_allele_filter", "string": s})
     ck.note("filter_strings_parsed", len(strings) + len(rejects))
 
+    ph.mark("from_variant_record")
     # ---- 2. spec -> code: every state through from_variant_record ----------
     groups = {}
     for i, s in enumerate(states):
@@ -200,6 +218,7 @@ def main():
     ck.note("aborted_by_tag_type", {"%s/%s" % k: v for k, v in aborted.items()})
     ck.sample({"kind": "model-state", "state": states[len(states) // 2]})
 
+    ph.mark("programs")
     # ---- 3. code -> spec: the three programs on a covering subset ------------
     byconf = {}
     for i, s in enumerate(states):
@@ -279,6 +298,7 @@ def main():
             meta.append({"prog": prog, "filter": fstr, "prior_frequencies": tag, "record": record_line(s["c"], "S%d" % i).strip(),
                          "RF_type": s["c"]["rfType"], "AF_type": s["c"]["afType"], "error": o.get("error"),
                          "chain": o.get("chain"), "line": None if crashed or ev["missing"] else recs["S%d" % i].line})
+    ph.mark("cli")
     # ---- the real command line (fresh interpreter): exit status 0 and the same records ----
     def data_lines(text):
         return [l for l in text.splitlines() if l and not l.startswith("##")]
@@ -308,6 +328,7 @@ def main():
     ck.note("cli_runs", len(cli))
     ck.note("program_runs", len(runs))
     ck.note("program_runs_aborted", {"%s/%s" % k: v for k, v in run_aborts.items()})
+    ph.mark("golden+trace")
     # the repo's own mock input with the options used by its tests (thousandths as the common unit)
     gold_events, gold_meta = golden_events(ck)
     events += gold_events
@@ -319,6 +340,7 @@ def main():
         shutil.rmtree(wdir, ignore_errors=True)
     except Exception:
         pass
+    ph.mark("end")
     ck.exhaustive = True
     ck.assumptions = [
         "TLC and the CommunityModules Json/IOUtils operators are correct",
